@@ -12,11 +12,28 @@ def classify_crash(cr):
 
 SPEC = {
     'id': 'C15',
-    'lean_modules': ['AITB.Props.C15'],
+    'lean_modules': ['AITB.Props.C15', 'AITB.Props.C15Gen', 'AITB.Props.C15Top'],
     'theorems': [
         'AITB.FLP.weak_duality_sound',
         'AITB.FLP.optimalPair_sound',
         'AITB.FLP.certified_minimal',
+        'AITB.FLP.veRows_sat',
+        'AITB.FLP.removeLoop_rows',
+        'AITB.FLP.removeLoop_graph',
+        'AITB.FLP.removeVar_val',
+        'AITB.FLP.removeVar_rows',
+        'AITB.FLP.hits_jv_eq_setAt',
+        'AITB.FLP.removeVar_ge',
+        'AITB.FLP.removeVar_extend',
+        'AITB.FLP.removeVar_inv',
+        'AITB.FLP.removeVar_LInvL',
+        'AITB.FLP.genLoop_spec',
+        'AITB.FLP.flp_core',
+        'AITB.FLP.setupLoop_spec',
+        'AITB.FLP.setupLoop_extend',
+        'AITB.FLP.flpSetup_spec',
+        'AITB.FLP.flp_named_err',
+        'AITB.FLP.factoredLP_equiv',
     ],
     'harness': 'harness/c15.cpp',
     # the calls LpSolveWrapper.cpp makes into lp_solve are recorded at link time (the library is not modified)
